@@ -975,7 +975,7 @@ pub fn scenarios(prop: &str, tier: Tier) -> Vec<Item> {
         }
         "C02" => {
             let mut p = rp("snapshot_chain", "C02");
-            p.pre = vec![Reg(S1, 1)];
+            p.pre = vec![Reg(S1, 1), Reg(S1, 4)];
             p.mutators = vec![vec![Reg(S1, 2), Unreg(1), Reg(S1, 3)]];
             p.deliverers = vec![vec![S1, S1]];
             p.nest = vec![S1];
@@ -1034,6 +1034,11 @@ pub fn scenarios(prop: &str, tier: Tier) -> Vec<Item> {
             v.push(item(build_reg(p), b(2, 3), "3 mutators (one panics on a forbidden signal) + deliveries + nested arrivals incl. inside the barrier"));
             v.push(item(build_relay_h1("relay_h1_sections_always_in_flight", 1), b(1, 2), "two readers relay their sections so that one is always open (each finite) until the writer is done: the writer must still finish"));
             v.push(item(build_relay_reg("relay_registry_deliveries_always_in_flight"), b(0, 1), "deliveries of two signals on two threads relay (each returns only after a later one started) until the mutator has done a register/unregister round"));
+            let mut p = rp("live_unregister_signal_vs_first_registration", "C18");
+            p.pre = vec![Reg(S1, 1)];
+            p.mutators = vec![vec![UnregSig(S1), Reg(S1, 2)], vec![Reg(S2, 5), UnregSig(S2)]];
+            p.deliverers = vec![vec![S1]];
+            v.push(item(build_reg(p), b(2, 3), "unregister_signal on one thread vs a first registration of another signal on another (both half-locks' writer mutexes in play)"));
             let mut p = rp("live_same_signal", "C18");
             p.mutators = vec![vec![Reg(S1, 1), UnregSig(S1)], vec![Reg(S1, 5), Unreg(5)]];
             p.deliverers = vec![vec![S1], vec![S1]];
